@@ -166,7 +166,7 @@ theorem enterCheck_top (F : Flags) (c : Config) (a k t : Nat) (par : Parent)
 theorem enterCheck_dep (F : Flags) (c : Config) (a p j t : Nat) (par : Parent)
     (h : enterCheck F c a (.dep p j) t = some par) :
     ∃ px, c.act? p = some px ∧ par = .act p { px with kids := (slotOfDep j, a) :: px.kids } ∧
-      px.kids.lookup (slotOfDep j) = none ∧ px.def_.deps[j]? = some t := by
+      px.kids.lookup (slotOfDep j) = none ∧ px.def_.deps[j]? = some t ∧ px.phase = .depsWait := by
   simp only [enterCheck] at h
   split at h
   · cases h
@@ -182,7 +182,7 @@ theorem enterCheck_dep (F : Flags) (c : Config) (a p j t : Nat) (par : Parent)
         · cases h
         · rename_i hne
           cases h
-          refine ⟨px, hpx, rfl, ?_, by rw [ht']; simpa using hne⟩
+          refine ⟨px, hpx, rfl, ?_, by rw [ht']; simpa using hne, hc.1⟩
           cases hl : px.kids.lookup (slotOfDep j) with
           | none => rfl
           | some _ => rw [hl] at hc; simp at hc
@@ -190,7 +190,8 @@ theorem enterCheck_dep (F : Flags) (c : Config) (a p j t : Nat) (par : Parent)
 theorem enterCheck_call (F : Flags) (c : Config) (a p i : Nat) (dfr : Bool) (t : Nat) (par : Parent)
     (h : enterCheck F c a (.call p i dfr) t = some par) :
     ∃ px, c.act? p = some px ∧ par = .act p { px with kids := (slotOfCall px i, a) :: px.kids } ∧
-      px.kids.lookup (slotOfCall px i) = none ∧ px.def_.cmds[i]? = some (.call t dfr) := by
+      px.kids.lookup (slotOfCall px i) = none ∧ px.def_.cmds[i]? = some (.call t dfr) ∧
+      px.phase = .inCall i dfr := by
   simp only [enterCheck] at h
   split at h
   · cases h
@@ -206,7 +207,7 @@ theorem enterCheck_call (F : Flags) (c : Config) (a p i : Nat) (dfr : Bool) (t :
         · rename_i hne
           cases h
           simp at hne
-          refine ⟨px, hpx, rfl, ?_, by rw [hcmd, hne.1, hne.2]⟩
+          refine ⟨px, hpx, rfl, ?_, by rw [hcmd, hne.1, hne.2], hc.1⟩
           cases hl : px.kids.lookup (slotOfCall px i) with
           | none => rfl
           | some _ => rw [hl] at hc; simp at hc
@@ -239,7 +240,8 @@ theorem enterAct_cases (P : Program) (F : Flags) (c c' : Config) (a : Nat) (kind
         ∀ b, b ≠ a → c'.act? b = c.act? b) ∨
      (∃ p px s, c.act? p = some px ∧ px.kids.lookup s = none ∧ slotFor px s t ∧ c'.tops = c.tops ∧ p ≠ a ∧
         c'.act? p = some { px with kids := (s, a) :: px.kids } ∧
-        ∀ b, b ≠ a → b ≠ p → c'.act? b = c.act? b)) := by
+        (∀ b, b ≠ a → b ≠ p → c'.act? b = c.act? b) ∧
+        (px.phase = .depsWait ∨ ∃ i d, px.phase = .inCall i d))) := by
   have hb := bumpCalls_frame P c t
   unfold enterAct at h
   split at h
@@ -272,15 +274,17 @@ theorem enterAct_cases (P : Program) (F : Flags) (c c' : Config) (a : Nat) (kind
       cases kind with
       | top k' => obtain ⟨e, _, _⟩ := enterCheck_top F c a k' t _ hc; cases e
       | dep p' j =>
-        obtain ⟨px, hpx, e, hfree, hdep⟩ := enterCheck_dep F c a p' j t _ hc
+        obtain ⟨px, hpx, e, hfree, hdep, hph⟩ := enterCheck_dep F c a p' j t _ hc
         injection e with e1 e2
         subst e1 e2
-        exact ⟨p, px, slotOfDep j, hpx, hfree, .inl hdep, enter_parent_frame P F c a _ t p px _ hn hpx⟩
+        obtain ⟨f1, f2, f3, f4⟩ := enter_parent_frame P F c a (.dep p j) t p px (slotOfDep j) hn hpx
+        exact ⟨p, px, slotOfDep j, hpx, hfree, .inl hdep, f1, f2, f3, f4, .inl hph⟩
       | call p' i d =>
-        obtain ⟨px, hpx, e, hfree, hcmd⟩ := enterCheck_call F c a p' i d t _ hc
+        obtain ⟨px, hpx, e, hfree, hcmd, hph⟩ := enterCheck_call F c a p' i d t _ hc
         injection e with e1 e2
         subst e1 e2
-        exact ⟨p, px, slotOfCall px i, hpx, hfree, .inr ⟨i, d, rfl, hcmd⟩, enter_parent_frame P F c a _ t p px _ hn hpx⟩
+        obtain ⟨f1, f2, f3, f4⟩ := enter_parent_frame P F c a (.call p i d) t p px (slotOfCall px i) hn hpx
+        exact ⟨p, px, slotOfCall px i, hpx, hfree, .inr ⟨i, d, rfl, hcmd⟩, f1, f2, f3, f4, .inr ⟨i, d, hph⟩⟩
 
 /-! ### sums -/
 
